@@ -26,6 +26,16 @@ import (
 	"github.com/avfs/avfs"
 )
 
+// lstatMode returns the search mode of a function that does not follow a final symbolic link :
+// the link is followed nevertheless when the path ends with a separator.
+func (vfs *MemFS) lstatMode(path string) slMode {
+	if len(path) > 1 && vfs.IsPathSeparator(path[len(path)-1]) {
+		return slmStat
+	}
+
+	return slmLstat
+}
+
 // searchNode search a node from the root of the file system
 // where path is the absolute or relative path of the node
 // and slMode the behavior of searchNode function relatively to symlinks.
@@ -137,6 +147,10 @@ func (vfs *MemFS) searchNode(path string, slMode slMode) (
 			if pi.IsLast() && slMode == slmLstat {
 				// the link itself is the result : it is not followed and does not count.
 				err = vfs.err.FileExists
+				if trailingSep {
+					// the link itself is not a directory (callers that follow it then use another mode).
+					err = vfs.err.NotADirectory
+				}
 
 				return
 			}
